@@ -1,2 +1,12 @@
+"""C03 stage "prims": primitive solids with integer data (tilted cylinders / capsules / cones / tori, polytopes,
+metaball solids under Transform / Scale / VecScale, 2D shapes, BitmapToSolid, toolbox3d solids) probed on the quarter
+lattice around their bounds; judged by spec/geom/PrimJudge.tla (exact membership in integer arithmetic)."""
+import solids
+
+CLAUSES = {"panic", "bounds", "leak", "cut"}
+
+
 def run(ctx):
-    pass
+    quick = ctx.tier == "quick"
+    solids.judge_stage(ctx, "prims", ["c03-prims", "n=%d" % (4 if quick else 24)], CLAUSES, judge="geom/PrimJudge",
+                       keyfn=lambda rec, clause: "%s:%s" % (rec["site"], clause))
